@@ -647,6 +647,8 @@ def simpler_readers(op):
             yield op[:9] + ["-"] + op[10:]
         if op[10] != "plain":
             yield op[:10] + ["plain"]
+    if op[0] == "snap" and op[1] == "stale":
+        yield ["snap", "view"]
     if op[0] not in ("restorer", "restorec"):
         return
     yield ["restore", op[1]]
